@@ -496,7 +496,8 @@ Section Full.
       assert (Hfound : vars_good s -> exists nm, nm_find k (cs_names s) = Some nm).
       { intros G. destruct (vg_ids _ G h id0 (nm_find_In _ _ _ Ef)) as (_ & nm & Hnm & _). eauto. }
       destruct (nm_find k (cs_names s)) as [nm|] eqn:En.
-      + intros H. injection H as <- <-. cbn.
+      + intros H. unfold name_checked in H. destruct (global_name_checked && _); [discriminate|].
+        injection H as <- <-. cbn.
         split; [reflexivity|]. split; [reflexivity|]. split; [reflexivity|]. split; [reflexivity|].
         split; [unfold nvars; cbn; lia|]. intros Hn G. split.
         * apply (vars_good_same s); auto.
@@ -519,7 +520,8 @@ Section Full.
         pose proof (vg_nv _ G) as Hnv. fold nv in Hnv.
         assert (id' = nv) by (apply n_free; [lia | lia | exact Hk]). lia. }
       destruct (nm_find k (cs_names s)) as [nm|] eqn:En.
-      + intros H. injection H as <- <-. cbn. unfold nvars. cbn. rewrite Hlen.
+      + intros H. unfold name_checked in H. destruct (global_name_checked && _); [discriminate|].
+        injection H as <- <-. cbn. unfold nvars. cbn. rewrite Hlen.
         split; [reflexivity|]. split; [reflexivity|]. split; [reflexivity|]. split; [reflexivity|].
         split; [lia|]. intros Hn G.
         assert (Hc : Some nm = None) by (apply Hfresh; [unfold nvars; lia | assumption]).
@@ -553,6 +555,35 @@ Section Full.
           -- destruct (G7 k' nm' Hin) as (id' & Hid' & Hk'). exists id'. split; [|exact Hk'].
              rewrite nm_find_insert_other; [exact Hid'|]. intros E. fold h in Ef. rewrite E in Hid'. congruence.
         * eapply Forall_impl; [|exact G8]. intros i. apply gidx_ok_mono. lia.
+  Qed.
+
+  (* ce07816: with the name check, the name table records the very name of every global the compiler
+     hands an id to (without it, a second name with the same hash got the id of the first) *)
+  Lemma global_id_records name s id s1 :
+    global_name_checked = true ->
+    global_id name s = ROk id s1 ->
+    nm_find (handle_from_u32 id) (cs_names s1) = Some name.
+  Proof.
+    intros Hchk. unfold global_id, bind, handle_from_bytes_m. set (h := handle_of_bytes name).
+    assert (Hsome : forall nm ids nv s', name_checked nm name id (set_vars ids (cs_names s) nv s) = ROk id s' ->
+                                    nm = name /\ cs_names s' = cs_names s).
+    { intros nm ids nv s' H. unfold name_checked in H. rewrite Hchk in H. cbn [andb] in H.
+      destruct (str_eqb nm name) eqn:E; cbn [negb] in H; [|discriminate].
+      injection H as <-. split; [|reflexivity]. apply (proj1 (list_eqb_spec N.eqb N.eqb_eq nm name) E). }
+    destruct (nm_find h (cs_ids s)) as [id0|] eqn:Ef.
+    - destruct (nm_find (handle_from_u32 id0) (cs_names s)) as [nm|] eqn:En.
+      + intros H. assert (id0 = id).
+        { unfold name_checked in H. destruct (global_name_checked && _); [discriminate | injection H; auto]. }
+        subst id0. destruct (Hsome _ _ _ _ H) as [-> ->]. exact En.
+      + destruct (ht_entry_hangs (cs_names s)); [discriminate|]. intros H. injection H as <- <-. cbn.
+        apply nm_find_insert_same.
+    - destruct (ht_entry_hangs (cs_ids s)); [discriminate|].
+      destruct (nm_find (handle_from_u32 (cs_next_var s)) (cs_names s)) as [nm|] eqn:En.
+      + intros H. assert (cs_next_var s = id).
+        { unfold name_checked in H. destruct (global_name_checked && _); [discriminate | injection H; auto]. }
+        subst id. destruct (Hsome _ _ _ _ H) as [-> ->]. exact En.
+      + destruct (ht_entry_hangs (cs_names s)); [discriminate|]. intros H. injection H as <- <-. cbn.
+        apply nm_find_insert_same.
   Qed.
 
   Definition glob_mk (mk : N -> instr) : Prop := mk = IReadGlobalVar \/ mk = ISetGlobalVar.
@@ -1119,23 +1150,63 @@ Proof.
 Qed.
 
 (* ------------------------------------------------------------------ observation O-C10-1 *)
-(* Two global variable names with the same Handle::from_str hash are ONE variable: FNV-1a-32 of
-   "brljcd" and of "uqabx" is 2133916524.  The compiled program has a single variable id, both
-   SetGlobalVar instructions carry it, `variables.names` keeps the first name - and the program is
-   well-formed (ids and names stay mutually inverse), which is why C10_compile_wellformed needs no
-   collision-freedom hypothesis on names.  On the real crate (harness c10-witness): after
-   `brljcd := 1; uqabx := 2` both names read 2. *)
+(* FNV-1a-32 of "brljcd" and of "uqabx" is 2133916524.  Before ce07816 two global variable names with the
+   same Handle::from_str hash were ONE variable: a single variable id, both SetGlobalVar instructions
+   carried it, `variables.names` kept the first name (and the program was well-formed: on the real
+   crate, after `brljcd := 1; uqabx := 2` both names read 2).  Since ce07816 the second name is rejected
+   with BadVariableName at its card.  [global_name_checked] is read from the source on every run; the two
+   lemmas are stated under its value so that the file builds against either tree. *)
 Definition name_collision_module : module :=
   main_module [CSetGlobalVar [98; 114; 108; 106; 99; 100] (CScalarInt 1);
                CSetGlobalVar [117; 113; 97; 98; 120] (CScalarInt 2)].
-Lemma name_collision_observation :
-  handle_of_bytes [98; 114; 108; 106; 99; 100] = handle_of_bytes [117; 113; 97; 98; 120] /\
+Lemma name_collision_hashes :
+  handle_of_bytes [98; 114; 108; 106; 99; 100] = handle_of_bytes [117; 113; 97; 98; 120].
+Proof. vm_compute. reflexivity. Qed.
+Lemma name_collision_repaired :
+  global_name_checked = true ->
+  compile name_collision_module default_options
+  = CErr (EBadVariableName [117; 113; 97; 98; 120])
+         (Some ([], {| ci_function := 0; ci_indices := [1%nat] |})).
+Proof. intros H. vm_compute in H. first [discriminate H | vm_compute; reflexivity]. Qed.
+Lemma name_collision_legacy :
+  global_name_checked = false ->
   exists B, compile name_collision_module default_options = COk B /\
             length (p_ids B) = 1%nat /\ map snd (p_names B) = [[98; 114; 108; 106; 99; 100]] /\
             wf_check B = true.
 Proof.
-  split; [vm_compute; reflexivity|].
-  destruct (compile name_collision_module default_options) as [B| | |] eqn:E; try (vm_compute in E; discriminate).
-  exists B. split; [reflexivity|]. vm_compute in E. injection E as <-.
-  split; [vm_compute; reflexivity|]. split; vm_compute; reflexivity.
+  intros H. vm_compute in H.
+  first [ discriminate H
+        | destruct (compile name_collision_module default_options) as [B| | |] eqn:E;
+          try (vm_compute in E; discriminate);
+          exists B; split; [reflexivity|]; vm_compute in E; injection E as <-;
+          split; [vm_compute; reflexivity|]; split; vm_compute; reflexivity ].
+Qed.
+
+(* the names of distinct ids are distinct strings, and (with the name check) the table records the name
+   of every global that was given an id: see global_id_records *)
+Lemma NoDup_snd_of_keys {A B} (l : list (A * B)) (key : B -> A) :
+  NoDup (map fst l) -> (forall a b, In (a, b) l -> key b = a) -> NoDup (map snd l).
+Proof.
+  induction l as [|[a b] r IH]; cbn [map fst snd]; intros Hnd Hk; [constructor|].
+  inversion Hnd as [|? ? Hnin Hr]; subst. constructor.
+  - intros Hin. apply in_map_iff in Hin. destruct Hin as [[a' b'] [E Hin]]. cbn in E. subst b'.
+    apply Hnin. apply in_map_iff. exists (a', b). split; [|exact Hin]. cbn.
+    rewrite <- (Hk a' b (or_intror Hin)), <- (Hk a b (or_introl eq_refl)). reflexivity.
+  - apply IH; auto. intros a' b' Hin. apply Hk. right. exact Hin.
+Qed.
+
+Theorem compile_names_distinct M o B :
+  compile M o = COk B ->
+  program_in_range M o = true ->
+  program_utf8 M o = true ->
+  N.of_nat (length (p_bytecode B)) < 2147483648 ->
+  N.of_nat (length (p_data B)) < 4294967296 ->
+  NoDup (map snd (p_names B)).
+Proof.
+  intros H Hr Hu Hl Hd. destruct (compile_wellformed M o B H Hr Hu Hl Hd) as (is & _ & _ & _ & _ & _ & _ & Hv & _).
+  destruct Hv as (_ & Hnd1 & Hnd2 & Hnd3 & Hids & Hnames).
+  apply (NoDup_snd_of_keys (p_names B)
+           (fun name => match nm_find (handle_of_bytes name) (p_ids B) with
+                        | Some id => handle_from_u32 id | None => 0 end)); [exact Hnd3|].
+  intros k name Hin. destruct (Hnames k name Hin) as (id & -> & Hk). exact Hk.
 Qed.
